@@ -7,6 +7,7 @@ import (
 	"sort"
 	"strconv"
 	"strings"
+	"sync"
 
 	"github.com/moov-io/iso8583"
 	"github.com/moov-io/iso8583/encoding"
@@ -91,7 +92,53 @@ func atoms(t *Tree, n int) ([]string, bool) {
 	return out, true
 }
 
+// Definition objects are shared the way applications share them: one padder object per
+// (side, pad byte) for the whole process, and one definition object (field template with its
+// *field.Spec, sub-definitions and bitmap definition) per distinct definition text. The library
+// only reads them (instances are created from them by reflection), so sharing changes nothing on
+// code where the definitions are immutable - and exposes a change that makes a padder, a spec or a
+// definition carry state from one use to the next or from one object to another.
+var (
+	shareMu  sync.Mutex
+	padCache = map[string]padding.Padder{}
+	defCache = map[string]field.Field{}
+)
+
 func padOf(s string) (padding.Padder, bool) {
+	shareMu.Lock()
+	defer shareMu.Unlock()
+	if p, ok := padCache[s]; ok {
+		return p, true
+	}
+	p, ok := newPadOf(s)
+	if ok && p != nil {
+		padCache[s] = p
+	}
+	return p, ok
+}
+
+// defOfTree: the (shared) definition object of a subfield
+func defOfTree(t *Tree) (field.Field, bool) {
+	key := t.String()
+	shareMu.Lock()
+	f, ok := defCache[key]
+	if len(defCache) > 200000 {
+		defCache = map[string]field.Field{}
+	}
+	shareMu.Unlock()
+	if ok {
+		return f, true
+	}
+	f, ok = FieldOfTree(t)
+	if ok {
+		shareMu.Lock()
+		defCache[key] = f
+		shareMu.Unlock()
+	}
+	return f, ok
+}
+
+func newPadOf(s string) (padding.Padder, bool) {
 	switch s {
 	case "nil":
 		return nil, true
@@ -201,7 +248,14 @@ func FieldOfTree(t *Tree) (field.Field, bool) {
 			if err != nil || !ok1 || bp == nil {
 				return nil, false
 			}
-			spec.Bitmap = field.NewBitmap(&field.Spec{Length: bl, Description: "bm", Enc: enc, Pref: bp, DisableAutoExpand: true})
+			shareMu.Lock()
+			bmDef, have := defCache["bitmap-def "+mode.String()]
+			if !have {
+				bmDef = field.NewBitmap(&field.Spec{Length: bl, Description: "bm", Enc: enc, Pref: bp, DisableAutoExpand: true})
+				defCache["bitmap-def "+mode.String()] = bmDef
+			}
+			shareMu.Unlock()
+			spec.Bitmap = bmDef.(*field.Bitmap)
 		default:
 			return nil, false
 		}
@@ -209,7 +263,7 @@ func FieldOfTree(t *Tree) (field.Field, bool) {
 			if k.Name != "sub" || len(k.Kids) != 2 {
 				return nil, false
 			}
-			sf, ok := FieldOfTree(k.Kids[1])
+			sf, ok := defOfTree(k.Kids[1])
 			if !ok {
 				return nil, false
 			}
